@@ -2124,14 +2124,9 @@ class VM:
                 return "".join(parts)
 
         def match(*args):
-            pattern = args[0] if args else None
-            if pattern is None:
-                # Match empty string
-                arr = JSArray()
-                arr._elements = [""]
-                arr.set("index", 0)
-                arr.set("input", s)
-                return arr
+            pattern = args[0] if args else UNDEFINED
+            if pattern is UNDEFINED:
+                pattern = ""  # new RegExp(undefined) is the empty pattern
 
             from .regex import RegExp as InternalRegExp
 
@@ -2197,9 +2192,9 @@ class VM:
                 raise TimeLimitError("Regex execution timeout")
 
         def search(*args):
-            pattern = args[0] if args else None
-            if pattern is None:
-                return 0  # Match empty string at start
+            pattern = args[0] if args else UNDEFINED
+            if pattern is UNDEFINED:
+                pattern = ""  # new RegExp(undefined) is the empty pattern
 
             from .regex import RegExp as InternalRegExp
 
